@@ -171,6 +171,7 @@ func (s *ShutdownScenario) Run(tmp string, r *rng.R) {
 		}
 	}
 	var feedDones []chan struct{}
+	var liveTerms []chan bool
 	var fmu sync.Mutex
 	if has("feeds") {
 		_ = cols[0][1].SetRaw("cpj:multi", 0, nil, []byte("not a checkpoint {"))
@@ -200,6 +201,18 @@ func (s *ShutdownScenario) Run(tmp string, r *rng.R) {
 				fmu.Unlock()
 				if i%2 == 0 {
 					close(term)
+				} else {
+					// at most 48 feeds stay registered at a time (every write fans out to all of them)
+					fmu.Lock()
+					liveTerms = append(liveTerms, term)
+					var oldest chan bool
+					if len(liveTerms) > 48 {
+						oldest, liveTerms = liveTerms[0], liveTerms[1:]
+					}
+					fmu.Unlock()
+					if oldest != nil {
+						close(oldest)
+					}
 				}
 			}
 			time.Sleep(time.Duration((i*37)%400) * time.Microsecond)
